@@ -260,7 +260,7 @@ def gen(ch, tier):
 
 def plan(tier):
     if tier == "quick":
-        return {"exhaustive": [(i, 6) for i in range(6)], "streams": {"main": 6000}, "shards": 16, "exhaustive_is_complete": True,
+        return {"exhaustive": [(i, 6) for i in range(6)], "streams": {"main": 9600}, "shards": 16, "exhaustive_is_complete": True,
                 "exhaustive_note": "the 6 (domain, problem, plan) triples shipped under tests/exporters_tests, replayed against the reference parser + interpreter"}
     return {"exhaustive": [(i, 6) for i in range(6)], "streams": {"main": 40000}, "shards": 16, "exhaustive_is_complete": True,
             "exhaustive_note": "the 6 shipped (domain, problem, plan) triples"}
